@@ -222,6 +222,7 @@ func checkC08(p *Prog, r *Report) {
 
 	checkTaintedBounds(p, r, append(append(server, client...), sshd...))
 	checkEnvStreams(p, r)
+	checkListNoNil(p, r)
 	checkConstIndex(p, r, append(append(server, client...), sshd...))
 
 	r.Assume("foreign code calls only function values and interface methods it was handed; no reflection/unsafe/cgo in module code")
